@@ -1,6 +1,14 @@
 import TsV.Model.Lang.Common
 /-!
-# Model of `core/src/language/kotlin.rs`  (stub: not modelled yet)
+# Model of `core/src/language/kotlin.rs`
+
+The Kotlin printer keeps no mutable state: no field of the `Kotlin` struct is written during
+generation (`type_map(&mut self)` only hands out a reference), so every function is a pure
+function of the configuration and the item.  Declarations are built as small fact records
+(`KtParam` for a constructor parameter, `KtEntry` for a case of an `enum class`, `KtCase` for a
+subclass of a `sealed class`, `KtDecl` for a whole declaration) and rendered by `render*`, so that
+theorems can speak about what a declaration binds and what it refers to while the correspondence
+compares the rendered bytes.
 -/
 namespace TsV.Lang.Kotlin
 open TsV TsV.Lang
@@ -12,12 +20,353 @@ structure Cfg where
   moduleName : Str := []
   pfx : Str := []
 
+/-- `const INLINE` -/
+def inlineName : Str := s%"JvmInline"
+
+/-- `Kotlin::format_simple_type` (kotlin.rs:37): mapping, else generic parameter, else prefixed -/
+def formatSimple (cfg : Cfg) (gens : List Str) (base : Str) : Str :=
+  match mapGet cfg.typeMappings base with
+  | some m => m
+  | none => if gens.contains base then base else cfg.pfx ++ base
+
+/-- the leaves of `Kotlin::format_special_type` (kotlin.rs:76-97) -/
+def formatPrim : Prim → Outcome Str
+  | .unit => .ok s%"Unit"
+  | .string | .char => .ok s%"String"
+  | .i8 => .ok s%"Byte"
+  | .i16 => .ok s%"Short"
+  | .isize | .i32 => .ok s%"Int"
+  | .i54 | .i64 => .ok s%"Long"
+  | .u8 => .ok s%"UByte"
+  | .u16 => .ok s%"UShort"
+  | .usize | .u32 => .ok s%"UInt"
+  | .u53 | .u64 => .ok s%"ULong"
+  | .bool => .ok s%"Boolean"
+  | .f32 => .ok s%"Float"
+  | .f64 => .ok s%"Double"
+  | .dateTime => .err (.formatError s%"UnsupportedSpecialType")
+
+mutual
+  /-- `Language::format_type` (default) with `Kotlin::format_simple_type`, the default
+  `format_generic_type` / `format_generic_parameters` and `Kotlin::format_special_type`.
+  Unlike TypeScript, special types are *not* looked up in the type mappings. -/
+  def formatType (cfg : Cfg) (gens : List Str) : RustType → Outcome Str
+    | .simple id => .ok (formatSimple cfg gens id)
+    | .generic id ps =>
+      match mapGet cfg.typeMappings id with
+      | some m => .ok m
+      | none =>
+        match formatTypes cfg gens ps with
+        | .ok strs => .ok (formatSimple cfg gens id ++ (if strs.isEmpty then [] else angle strs))
+        | .err e => .err e
+        | .panic s => .panic s
+    | .vec r | .array r _ | .slice r =>
+      match formatType cfg gens r with
+      | .ok s => .ok (s%"List<" ++ s ++ s%">")
+      | .err e => .err e
+      | .panic s => .panic s
+    | .option r =>
+      match formatType cfg gens r with
+      | .ok s => .ok (s ++ s%"?")
+      | .err e => .err e
+      | .panic s => .panic s
+    | .hashMap k v =>
+      match formatType cfg gens k with
+      | .ok ks =>
+        (match formatType cfg gens v with
+        | .ok vs => .ok (s%"HashMap<" ++ ks ++ s%", " ++ vs ++ s%">")
+        | .err e => .err e
+        | .panic s => .panic s)
+      | .err e => .err e
+      | .panic s => .panic s
+    | .prim p => formatPrim p
+  def formatTypes (cfg : Cfg) (gens : List Str) : List RustType → Outcome (List Str)
+    | [] => .ok []
+    | t :: ts =>
+      match formatType cfg gens t with
+      | .ok s =>
+        (match formatTypes cfg gens ts with
+        | .ok ss => .ok (s :: ss)
+        | .err e => .err e
+        | .panic s => .panic s)
+      | .err e => .err e
+      | .panic s => .panic s
+end
+
+/-- `write_comments` / `write_comment` (kotlin.rs:475-494): one `/// ` line per comment -/
+def comments (indent : Nat) (cs : List Str) : Str :=
+  cs.flatMap fun c => tabs indent ++ s%"/// " ++ c ++ nl
+
+/-- `remove_dash_from_identifier` (parser.rs:872) -/
+def removeDash (name : Str) : Str := Str.replaceChar name '-' ['_']
+
+/-- `is_inline` (kotlin.rs:496): the `kotlin = "…"` decorator set contains `JvmInline` -/
+def isInline (d : DecoratorMap) : Bool :=
+  match d.kotlin with
+  | some ds => ds.contains inlineName
+  | none => false
+
+/-! ## constructor parameters (`write_element`) -/
+
+/-- what one constructor parameter says -/
+structure KtParam where
+  comments : List Str
+  serialName : Option Str   -- the wire key of `@SerialName(…)`, when the annotation is written
+  isPrivate : Bool          -- `Visibility::Private`
+  name : Str                -- the Kotlin property name as printed (dashes replaced)
+  ty : Str
+  dflt : Str                -- `""`, `" = null"` or `"? = null"`
+
+/-- the text of `write_element` (no trailing newline / comma) -/
+def renderParam (p : KtParam) : Str :=
+  comments 1 p.comments ++
+  (match p.serialName with
+   | some n => s%"\t@SerialName(" ++ debugStr n ++ s%")\n"
+   | none => []) ++
+  (if p.isPrivate then s%"\tprivate val " else s%"\tval ") ++ p.name ++ s%": " ++ p.ty ++ p.dflt
+
+/-- the default suffix (kotlin.rs:457-460) -/
+def defaultSuffix (f : RustField) : Str :=
+  if f.hasDefault && !f.ty.isOptional then s%"? = null"
+  else if f.ty.isOptional then s%" = null"
+  else []
+
+/-- `write_element` (kotlin.rs:432) as a fact record -/
+def paramFacts (cfg : Cfg) (gens : List Str) (requiresSerialName isPrivate : Bool) (f : RustField) :
+    Outcome KtParam :=
+  (match typeOverride f .kotlin with
+   | some t => Outcome.ok t
+   | none => formatType cfg gens f.ty).bind fun ty =>
+  .ok { comments := f.comments,
+        serialName := if requiresSerialName then some f.id.renamed else none,
+        isPrivate,
+        name := removeDash f.id.renamed,
+        ty,
+        dflt := defaultSuffix f }
+
+def paramsFacts (cfg : Cfg) (gens : List Str) (requiresSerialName : Bool) : List RustField → Outcome (List KtParam)
+  | [] => .ok []
+  | f :: fs =>
+    (paramFacts cfg gens requiresSerialName false f).bind fun p =>
+    (paramsFacts cfg gens requiresSerialName fs).bind fun ps => .ok (p :: ps)
+
+/-! ## enum cases -/
+
+/-- one entry of an `enum class` (kotlin.rs:315-324) -/
+structure KtEntry where
+  comments : List Str
+  serialName : Str     -- wire name (`id.renamed`), printed with `{:?}`
+  name : Str           -- Kotlin entry name (`id.original`)
+  value : Str          -- constructor argument (`id.renamed`), printed with `{:?}`
+
+def renderEntry (c : KtEntry) : Str :=
+  comments 1 c.comments ++ s%"\t@SerialName(" ++ debugStr c.serialName ++ s%")\n" ++
+  s%"\t" ++ c.name ++ s%"(" ++ debugStr c.value ++ s%"),\n"
+
+/-- the payload of a subclass of a `sealed class` -/
+inductive KtPayload where
+  | object                                              -- `object Name`
+  | content (key : Str) (ty : Str)                      -- `data class Name<G>(val key: ty)`
+  | inner (key : Str) (tyName : Str) (generics : Str)   -- `… (val key: <prefix><Enum><Variant>Inner<G'>)`
+
+/-- one subclass of a `sealed class` (kotlin.rs:331-425) -/
+structure KtCase where
+  comments : List Str
+  serialName : Str     -- wire name; printed between plain quotes, *not* escaped (kotlin.rs:332)
+  name : Str           -- Kotlin class name: Pascal-cased `id.original`, `_` in front of a digit
+  generics : Str       -- the enum's `<A, B>` repeated on every data class
+  payload : KtPayload
+  parent : Str         -- `<prefix><enum id.original>` — the super class *reference*
+  parentGenerics : Str
+
+def renderCase (c : KtCase) : Str :=
+  comments 1 c.comments ++ s%"\t@Serializable\n" ++ s%"\t@SerialName(\"" ++ c.serialName ++ s%"\")\n" ++
+  (match c.payload with
+   | .object => s%"\tobject " ++ c.name
+   | .content key ty =>
+     s%"\tdata class " ++ c.name ++ c.generics ++ s%"(" ++ s%"val " ++ key ++ s%": " ++ ty ++ s%")"
+   | .inner key tyName gens =>
+     s%"\tdata class " ++ c.name ++ c.generics ++ s%"(" ++ s%"val " ++ key ++ s%": " ++ tyName ++ gens ++ s%")") ++
+  s%": " ++ c.parent ++ c.parentGenerics ++ s%"()\n"
+
+/-- the `variant_name` block (kotlin.rs:337-352) -/
+def variantName (original : Str) : Str :=
+  let n := Rename.toPascal original
+  match n with
+  | c :: _ => if Str.isAsciiDigit c then '_' :: n else n
+  | [] => n
+
+/-- the generic parameters of the enclosing enum that the fields mention (kotlin.rs:386-401) -/
+def usedGenerics (e : RustEnum) (fields : List RustField) : List Str :=
+  (fields.flatMap fun f => e.genericTypes.filter fun g => f.ty.containsType g).eraseDups
+
+def caseFacts (cfg : Cfg) (e : RustEnum) (contentKey : Str) (v : RustEnumVariant) : Outcome KtCase :=
+  let gp := genericSuffix e.genericTypes
+  let mk (payload : KtPayload) : KtCase :=
+    { comments := v.comments, serialName := v.id.renamed, name := variantName v.id.original,
+      generics := gp, payload, parent := cfg.pfx ++ e.id.original, parentGenerics := gp }
+  match v with
+  | .unit _ _ => .ok (mk .object)
+  | .tuple _ _ ty =>
+    (formatType cfg e.genericTypes ty).bind fun t => .ok (mk (.content contentKey t))
+  | .anonymousStruct id _ fields =>
+    .ok (mk (.inner contentKey (cfg.pfx ++ e.id.original ++ id.original ++ s%"Inner")
+              (genericSuffix (usedGenerics e fields))))
+
+def casesFacts (cfg : Cfg) (e : RustEnum) (contentKey : Str) : List RustEnumVariant → Outcome (List KtCase)
+  | [] => .ok []
+  | v :: vs =>
+    (caseFacts cfg e contentKey v).bind fun c =>
+    (casesFacts cfg e contentKey vs).bind fun cs => .ok (c :: cs)
+
+def entryFacts (v : RustEnumVariant) : KtEntry :=
+  { comments := v.comments, serialName := v.id.renamed, name := v.id.original, value := v.id.renamed }
+
+/-! ## declarations -/
+
+/-- what one top-level declaration binds -/
+inductive KtDecl where
+  /-- `typealias <name><generics> = <ty>` -/
+  | typeAlias (comments : List Str) (name : Str) (generics : Str) (ty : Str)
+  /-- `@JvmInline value class <name>(<param>)`, redacted or not -/
+  | valueClass (comments : List Str) (name : Str) (param : KtParam) (redacted : Bool)
+  /-- `object <name>` -/
+  | object (comments : List Str) (name : Str)
+  /-- `data class <name><generics> (<params>)`; `redacted = some s`: `toString()` returns `s` -/
+  | dataClass (comments : List Str) (name : Str) (generics : Str) (params : List KtParam)
+      (redacted : Option Str)
+  /-- `enum class <name><generics>(val string: String) { entries }` -/
+  | enumClass (comments : List Str) (name : Str) (generics : Str) (entries : List KtEntry)
+  /-- `sealed class <name><generics> { cases }` -/
+  | sealedClass (comments : List Str) (name : Str) (generics : Str) (cases : List KtCase)
+
+/-- `f1,\n f2,\n … fn\n` (kotlin.rs:213-232) -/
+def renderParams : List KtParam → Str
+  | [] => []
+  | [p] => renderParam p ++ nl
+  | p :: ps => renderParam p ++ s%",\n" ++ renderParams ps
+
+def renderDecl : KtDecl → Str
+  | .typeAlias cs name gens ty =>
+    comments 0 cs ++ s%"typealias " ++ name ++ gens ++ s%" = " ++ ty ++ s%"\n\n"
+  | .valueClass cs name p redacted =>
+    comments 0 cs ++ s%"@Serializable\n@JvmInline\nvalue class " ++ name ++ s%"(\n" ++
+    renderParam p ++ nl ++
+    (if redacted then
+      s%") {\n\tfun unwrap() = value\n\n\toverride fun toString(): String = \"***\"\n}\n"
+     else s%")\n") ++ nl
+  | .object cs name =>
+    comments 0 cs ++ s%"@Serializable\n" ++ s%"object " ++ name ++ s%"\n\n"
+  | .dataClass cs name gens ps redacted =>
+    comments 0 cs ++ s%"@Serializable\n" ++ s%"data class " ++ name ++ gens ++ s%" (\n" ++
+    renderParams ps ++
+    (match redacted with
+     | some s => s%") {\n\toverride fun toString(): String = " ++ debugStr s ++ s%"\n}\n"
+     | none => s%")\n") ++ nl
+  | .enumClass cs name gens entries =>
+    comments 0 cs ++ s%"@Serializable\n" ++ s%"enum class " ++ name ++ gens ++ s%"(val string: String) " ++
+    s%"{\n" ++ entries.flatMap renderEntry ++ s%"}\n\n"
+  | .sealedClass cs name gens cases =>
+    comments 0 cs ++ s%"@Serializable\n" ++ s%"sealed class " ++ name ++ gens ++ s%" " ++
+    s%"{\n" ++ cases.flatMap renderCase ++ s%"}\n\n"
+
+/-- `write_struct` (kotlin.rs:186) -/
+def structFacts (cfg : Cfg) (rs : RustStruct) : Outcome KtDecl :=
+  if rs.fields.isEmpty then .ok (.object rs.comments (cfg.pfx ++ rs.id.renamed))
+  else
+    let requiresSerialName := rs.fields.any fun f => f.id.renamed.contains '-'
+    (paramsFacts cfg rs.genericTypes requiresSerialName rs.fields).bind fun ps =>
+      .ok (.dataClass rs.comments (cfg.pfx ++ rs.id.renamed) (genericSuffix rs.genericTypes) ps
+            (if rs.isRedacted then some rs.id.renamed else none))
+
+/-- the field `write_type_alias` synthesises for an inline value class (kotlin.rs:134-144) -/
+def valueField (ty : RustType) : RustField :=
+  { id := ⟨s%"value", s%"value", false⟩, ty, comments := [], hasDefault := false, decorators := [] }
+
+/-- `write_type_alias` (kotlin.rs:123): the `typealias` is named after `id.original`, the value
+class after `id.renamed` -/
+def aliasFacts (cfg : Cfg) (a : RustTypeAlias) : Outcome KtDecl :=
+  if isInline a.decorators then
+    (paramFacts cfg [] false a.isRedacted (valueField a.ty)).bind fun p =>
+      .ok (.valueClass a.comments (cfg.pfx ++ a.id.renamed) p a.isRedacted)
+  else
+    (formatType cfg a.genericTypes a.ty).bind fun ty =>
+      .ok (.typeAlias a.comments (cfg.pfx ++ a.id.original) (genericSuffix a.genericTypes) ty)
+
+/-- `write_types_for_anonymous_structs` with the Kotlin naming closure (kotlin.rs:249-251): the
+helper classes are named `<enum id.renamed><variant id.original>Inner` (and `write_struct` puts the
+prefix in front) -/
+def innerStructs (e : RustEnum) : List RustStruct :=
+  (structVariants e).map fun (id, fields) =>
+    anonymousStruct e (e.id.renamed ++ id.original ++ s%"Inner") id.original fields
+
+def structsFacts (cfg : Cfg) : List RustStruct → Outcome (List KtDecl)
+  | [] => .ok []
+  | s :: ss =>
+    (structFacts cfg s).bind fun d =>
+    (structsFacts cfg ss).bind fun ds => .ok (d :: ds)
+
+/-- `write_enum` (kotlin.rs:247): the helper classes, then the enum itself -/
+def enumFacts (cfg : Cfg) (e : RustEnum) : Outcome (List KtDecl) :=
+  (structsFacts cfg (innerStructs e)).bind fun inners =>
+  let gp := genericSuffix e.genericTypes
+  match e.keys with
+  | none =>
+    .ok (inners ++ [.enumClass e.comments (cfg.pfx ++ e.id.renamed) gp (e.variants.map entryFacts)])
+  | some (_, contentKey) =>
+    (casesFacts cfg e contentKey e.variants).bind fun cases =>
+      .ok (inners ++ [.sealedClass e.comments (cfg.pfx ++ e.id.renamed) gp cases])
+
+/-- the declarations one item produces; `write_const` is `todo!()` (kotlin.rs:183) -/
+def itemFacts (cfg : Cfg) : RustItem → Outcome (List KtDecl)
+  | .struct s => (structFacts cfg s).bind fun d => .ok [d]
+  | .enum e => enumFacts cfg e
+  | .alias a => (aliasFacts cfg a).bind fun d => .ok [d]
+  | .const _ => .panic s%"kotlin.rs:183"
+
+def itemsFacts (cfg : Cfg) : List RustItem → Outcome (List KtDecl)
+  | [] => .ok []
+  | it :: its =>
+    (itemFacts cfg it).bind fun a =>
+    (itemsFacts cfg its).bind fun b => .ok (a ++ b)
+
+/-- `begin_file` (kotlin.rs:101): nothing at all without a package -/
+def beginFile (cfg : Cfg) (d : ParsedData) : Str :=
+  if cfg.package.isEmpty then [] else
+  (match cfg.versionHeader with
+   | some v => s%"/**\n * Generated by typeshare " ++ v ++ s%"\n */\n\n"
+   | none => []) ++
+  (if d.multiFile then s%"package " ++ cfg.package ++ s%"." ++ d.crateName ++ nl
+   else s%"package " ++ cfg.package ++ nl) ++
+  s%"\nimport kotlinx.serialization.Serializable\nimport kotlinx.serialization.SerialName\n\n"
+
+/-- `write_imports` (kotlin.rs:288): one line per type, names as they are in the *Rust* source
+(no prefix), then an empty line -/
+def writeImports (cfg : Cfg) (imports : Pipeline.ScopedCrateTypes) : Str :=
+  (imports.flatMap fun (path, tys) =>
+    tys.flatMap fun t => s%"import " ++ cfg.package ++ s%"." ++ path ++ s%"." ++ t ++ nl) ++ nl
+
+/-- `Language::generate_types` for one output file -/
+def generate (cfg : Cfg) (d : ParsedData) (imports : Option Pipeline.ScopedCrateTypes) : Outcome Str :=
+  match Pipeline.generateOrder d with
+  | none => .panic s%"topsort"
+  | some items =>
+    (itemsFacts cfg items).bind fun decls =>
+      .ok (beginFile cfg d ++
+           (if d.multiFile then writeImports cfg (imports.getD []) else []) ++
+           decls.flatMap renderDecl)
+
+def generateFrom (cfg : Cfg) :
+    List (Str × ParsedData × Option Pipeline.ScopedCrateTypes) → Outcome (List (Str × Str))
+  | [] => .ok []
+  | (crate, d, imps) :: rest =>
+    (generate cfg d imps).bind fun text =>
+    (generateFrom cfg rest).bind fun outs => .ok ((crate, text) :: outs)
+
 /-- all output files of one run: `jobs` are the crates in map order with their reconciled data and
-(in multi-file mode) the imports `used_imports` computed.  Returns (crate ↦ text) in the same order
-(plus, for Swift in multi-file mode, what `post_generation` writes, under the key
-`<post>/<file name>`). -/
-def generateAll (E : Ext) (cfg : Cfg) (multiFile : Bool)
+(in multi-file mode) the imports `used_imports` computed.  Returns (crate ↦ text) in the same order. -/
+def generateAll (_E : Ext) (cfg : Cfg) (_multiFile : Bool)
     (jobs : List (Str × ParsedData × Option Pipeline.ScopedCrateTypes)) : Outcome (List (Str × Str)) :=
-  .err (.formatError s%"unmodelled-language")
+  generateFrom cfg jobs
 
 end TsV.Lang.Kotlin
